@@ -1,6 +1,6 @@
 CONSTANTS MaxDepth = 2
           SeedLo = 1
-          SeedHi = 4
+          SeedHi = 2
           Keywords = {"SELECT", "FROM", "WHERE", "(", ")", ",", "NULL", "*", "AND", "1", "BY", "''"}
 INIT Init
 NEXT Next
